@@ -177,6 +177,16 @@ def corpus():
                     "m3": _fn("memento", [["m1", "bare"], ["m2", "bare"]])}, order=["m1", "m2", "m3"])
     k1 = json.loads(json.dumps(k0)); k1["defs"]["m1"].update(const=2, explicit="12"); k1["defs"]["m2"].update(const=2, explicit="3")
     out.append([k0, k1])
+    # F21: an alias re-bound between two functions that are both dependencies already
+    a0 = dict(defs={"m1": _fn("memento", []), "m2": _fn("memento", [], const=2),
+                    "m3": _fn("memento", [["m1", "bare"], ["m1", "alias"], ["m2", "bare"]])}, order=["m1", "m2", "m3"])
+    a1 = json.loads(json.dumps(a0)); a1["alias_map"] = {"m1": "m2"}
+    out.append([a0, a1])
+    # the same for plain helpers
+    b0 = dict(defs={"h1": _fn("plain", []), "h2": _fn("plain", [], const=2),
+                    "m1": _fn("memento", [["h1", "bare"], ["h1", "alias"], ["h2", "bare"]])}, order=["h1", "h2", "m1"])
+    b1 = json.loads(json.dumps(b0)); b1["alias_map"] = {"h1": "h2"}
+    out.append([b0, b1])
     return out
 
 
